@@ -10,6 +10,7 @@ From Droop Require Import Model.DriverParse.
 From Droop Require Export Model.CountCase.
 From Droop Require Import Model.Record Model.DriverRender.
 From Droop Require Import Model.DriverOptions.
+From Droop Require Import Model.Profile Model.EndToEnd.
 Import ListNotations.
 Open Scope string_scope.
 Open Scope Z_scope.
@@ -169,15 +170,36 @@ End Show.
 
 (* the token readers, tag_name / state_name / code_of / lf, rule_of / meth_of and parse_count_case live in
    Model.CountCase (shared with DriverRender) *)
+Definition run_case (c : count_case) : string :=
+  let r := cc_rule c in let cfg := cc_cfg c in let fuel := cc_fuel c in let pr := cc_profile c in
+  let p := cc_p c in let g := cc_g c in let d := cc_d c in let stale := cc_stale c in
+  if cc_ar c =? 0 then show_outcome (Fixed p d) (meth_of r) (run_count (Fixed p d) cfg fuel r pr)
+  else if cc_ar c =? 1 then show_outcome (Guarded p g d stale) (meth_of r) (run_count (Guarded p g d stale) cfg fuel r pr)
+  else show_outcome (Rational d) (meth_of r) (run_count (Rational d) cfg fuel r pr).
+
 Definition run_count_case (l : list tok) : string :=
   match parse_count_case l with
   | inl e => e
-  | inr c =>
-    let r := cc_rule c in let cfg := cc_cfg c in let fuel := cc_fuel c in let pr := cc_profile c in
-    let p := cc_p c in let g := cc_g c in let d := cc_d c in let stale := cc_stale c in
-    if cc_ar c =? 0 then show_outcome (Fixed p d) (meth_of r) (run_count (Fixed p d) cfg fuel r pr)
-    else if cc_ar c =? 1 then show_outcome (Guarded p g d stale) (meth_of r) (run_count (Guarded p g d stale) cfg fuel r pr)
-    else show_outcome (Rational d) (meth_of r) (run_count (Rational d) cfg fuel r pr)
+  | inr c => run_case c
+  end.
+
+(* e2e <rulename> rule arith p g d stale omega10 intquota batchzero batch warren fuelbits mode <code point>* :
+   the reader model parses the text, the count model counts what it parsed; seats and ballot count come from the
+   parsed profile, the rule's configuration from the implementation's option handling (decided under C17) *)
+Definition run_e2e (l : list tok) : string :=
+  match l with
+  | TS rname :: TI rl :: TI ar :: TI p :: TI g :: TI d :: TI stale :: TI om :: TI iq :: TI bz :: TI bt :: TI wa ::
+    TI fb :: TI mode :: rest =>
+    match (if mode =? 0 then parse (toks_zs rest) else parse_file (toks_zs rest)) with
+    | Raise e => "Raise " ++ exn_name e
+    | Ok pp =>
+      let pr := to_count_profile pp in
+      let r := rule_of rl in
+      let cfg := mkConfig rname (meth_of r) (pr_nseats pr) (pr_nballots pr) (negb (iq =? 0)) (negb (bz =? 0)) (negb (bt =? 0))
+                          (negb (wa =? 0)) om in
+      run_case (mkCase r cfg (Pos.pow 2 (Z.to_pos fb)) pr ar p g d stale)
+    end
+  | _ => "bade2e"
   end.
 
 (* top level: first token selects the sub-driver *)
@@ -188,5 +210,6 @@ Definition run (l : list tok) : string :=
   | TS "render" :: rest => run_render rest
   | TS "options" :: rest => run_options rest
   | TS "parse" :: rest => run_parse rest
+  | TS "e2e" :: rest => run_e2e rest
   | _ => "badcommand"
   end.
